@@ -67,6 +67,10 @@ pub struct CutCase {
     /// has noticed the end of the old connection
     #[serde(default)]
     pub comeback: bool,
+    /// further peers whose connections end with an ERROR inside a frame at the same time as the
+    /// victim's (several dead peers' left-over queue events between two deliveries)
+    #[serde(default)]
+    pub extra_failing: usize,
 }
 
 pub const VICTIM_ID: &[u8] = b"victim-identity";
@@ -226,6 +230,26 @@ pub fn cut_outcome(c: &CutCase) -> Outcome {
                     fail!(f, format!("C16/{}/{}/handshake-cut-hangs", who, ck), "the connection ended at byte {} of the handshake but the handshake neither failed nor completed", pos);
                 } else if !victim.to_lib.reader_dropped() || !victim.from_lib.writer_dropped() {
                     fail!(f, format!("C16/{}/{}/handshake-cut-not-released", who, ck), "connection that ended at byte {} of the handshake is still held (read half dropped: {}, write half dropped: {})", pos, victim.to_lib.reader_dropped(), victim.from_lib.writer_dropped());
+                }
+            }
+            // further failing peers: handshake, the start of a frame, then a reset
+            let mut extras: Vec<Link> = vec![];
+            if kind != Kind::Req {
+                for _ in 0..c.extra_failing.min(4) {
+                    let l = sim.link();
+                    let mut st = refcodec::handshake_bytes(kind.a_compatible_peer(), None);
+                    st.extend_from_slice(&[0x00, 0x0a, b'a', b'b', b'c']);
+                    l.to_lib.deposit(&st);
+                    l.to_lib.end_after_all(ReadEnd::Err(std::io::ErrorKind::ConnectionReset));
+                    l.from_lib.break_writer(std::io::ErrorKind::ConnectionReset);
+                    let a = sim.attach(s, &l);
+                    l.to_lib.deliver_all();
+                    let _ = sim.settle().await;
+                    let _ = a;
+                    extras.push(l);
+                }
+                if !extras.is_empty() {
+                    classes.push("several-peers-fail-at-once".into());
                 }
             }
             let victim_complete = ends.iter().filter(|e| **e <= pos).count();
@@ -530,7 +554,7 @@ pub fn cut_outcome(c: &CutCase) -> Outcome {
                 }
             }
             // ---- (b) at most one error for the event
-            let allowed = if admitted { 1 } else { 0 };
+            let allowed = if admitted { 1 } else { 0 } + extras.len();
             if errs.len() > allowed {
                 let repeated = errs.windows(2).filter(|w| w[0] == w[1]).count();
                 fail!(
@@ -995,6 +1019,7 @@ pub fn enumerated() -> Vec<CutCase> {
                             write_err: if cut == CutKind::Reset { 1 } else { 0 },
                             burst,
                             comeback,
+                            extra_failing: if burst > 0 { 2 } else { 0 },
                         });
                     }
                 }
@@ -1011,6 +1036,7 @@ pub fn enumerated() -> Vec<CutCase> {
                     write_err,
                     burst: 0,
                     comeback: write_err % 2 == 1,
+                    extra_failing: write_err as usize % 3,
                 });
             }
         }
@@ -1045,6 +1071,7 @@ pub fn gen_cut(s: &mut Src<'_>) -> CutCase {
         write_err: s.pick(&[0u8, 0, 1, 1, 2, 3]),
         burst: s.pick(&[0usize, 0, 1, 2, 5]),
         comeback: s.chance(1, 3),
+        extra_failing: s.pick(&[0usize, 0, 0, 1, 2, 3]),
     }
 }
 
@@ -1111,10 +1138,11 @@ pub fn run(ctx: &Ctx) -> (Report, PropertyMeta) {
     health_abs(&mut report, "cut-protocol-error", 300);
     health_abs(&mut report, "send-in-flight-when-the-peer-dies", 100);
     health_abs(&mut report, "victim-comes-back-under-its-identity", 300);
+    health_abs(&mut report, "several-peers-fail-at-once", 300);
 
     let meta = PropertyMeta {
         level: "fault_enumeration",
-        rule: "every socket type with 1..3 healthy raw peers and one victim whose connection ends at an enumerated / generated byte position of its stream (inside the greeting, between greeting and READY, inside READY, between messages, inside flags / size / body, between frames of a multipart message) by orderly close (EOF; writes fail afterwards, or - as with a TCP FIN - still succeed), reset (read error, writes fail), protocol error (the peer stays connected and sends a malformed command at a message boundary) or write-only failure (writes fail with EPIPE, ECONNRESET, ETIMEDOUT or ECONNABORTED), followed by rounds of healthy-peer traffic and application calls (recv until pending; sends that rotate onto / address the victim; REP replies; publishes, including ones matching the victim's subscription; SUB subscription changes). Oracle: (a) every healthy peer's message is still delivered exactly once in order, publishes reach healthy subscribers, successful sends land on healthy peers, and only the victim's COMPLETE messages surface; (b) recv reports at most one error for the event and the socket always reaches quiescence; (c) once the socket has observed the end (a read returned EOF/error or a write failed) no send fails because it was routed to that peer, and ROUTER send to its identity fails; (d) after observation both connection halves the library held are dropped; a connection that ends during the handshake is never admitted and is released. Come-back: in a third of the cases a new connection announcing the victim's identity joins after the tail and must be admitted and exchange traffic like a healthy peer, whether or not the end of the old connection was noticed. In-flight sends: with a send pending on the victim's closed write window (PUSH/DEALER/REQ/ROUTER/REP) the connection is reset - the send must return (an error), later sends reach healthy peers and both halves are dropped. Real transports: after N connect-handshake-talk-disconnect cycles over TCP and IPC against a long-lived socket of every type the process's open-descriptor count and the runtime's alive-task count are within a constant of their values after 10 cycles. Non-trivial = cut strictly inside a message or inside the handshake; distinct by case".into(),
+        rule: "every socket type with 1..3 healthy raw peers and one victim whose connection ends at an enumerated / generated byte position of its stream (inside the greeting, between greeting and READY, inside READY, between messages, inside flags / size / body, between frames of a multipart message) by orderly close (EOF; writes fail afterwards, or - as with a TCP FIN - still succeed), reset (read error, writes fail), protocol error (the peer stays connected and sends a malformed command at a message boundary) or write-only failure (writes fail with EPIPE, ECONNRESET, ETIMEDOUT or ECONNABORTED), followed by rounds of healthy-peer traffic and application calls (recv until pending; sends that rotate onto / address the victim; REP replies; publishes, including ones matching the victim's subscription; SUB subscription changes). Oracle: (a) every healthy peer's message is still delivered exactly once in order, publishes reach healthy subscribers, successful sends land on healthy peers, and only the victim's COMPLETE messages surface; (b) recv reports at most one error for the event and the socket always reaches quiescence; (c) once the socket has observed the end (a read returned EOF/error or a write failed) no send fails because it was routed to that peer, and ROUTER send to its identity fails; (d) after observation both connection halves the library held are dropped; a connection that ends during the handshake is never admitted and is released. In half of the random cases 1..3 further peers fail with an error inside a frame at the same time as the victim (one error each is allowed). Come-back: in a third of the cases a new connection announcing the victim's identity joins after the tail and must be admitted and exchange traffic like a healthy peer, whether or not the end of the old connection was noticed. In-flight sends: with a send pending on the victim's closed write window (PUSH/DEALER/REQ/ROUTER/REP) the connection is reset - the send must return (an error), later sends reach healthy peers and both halves are dropped. Real transports: after N connect-handshake-talk-disconnect cycles over TCP and IPC against a long-lived socket of every type the process's open-descriptor count and the runtime's alive-task count are within a constant of their values after 10 cycles. Non-trivial = cut strictly inside a message or inside the handshake; distinct by case".into(),
         assumptions: vec![
             "a closed connection is modelled as EOF on reads plus BrokenPipe on writes (a fully closed TCP peer); half-close is not generated".into(),
             "'observed' is measured at the pipe: a read returned the end marker or a write returned the injected error".into(),
